@@ -424,6 +424,10 @@ add("C17", "fixed", "stale-clock:filter:date", "{{ 'now' | date: fmt }} (and 'to
     "that format, until ten other date calls evicted the entry",
     [], "b13bdc7")
 
+add("C09", "fixed", "render-exceeds-step-budget:render:lax-mode-fanout", "in lax / warn mode ContextDepthError was reported per node and rendering went on: a partial that renders (or includes) itself twice per "
+    "level rendered 2^depth-limit times (hours with the default limit of 30) instead of being cut off",
+    [{"kind": "family", "family": "render", "cycle": 1, "wrappers": [], "async": False, "must_cut": False, "mode": "lax", "fanout": 2}], "68b6280")
+
 if __name__ == "__main__":
     # further entries are appended by tools/mkfindings.py from triaged replay files and kept in findings_extra.json
     extra_path = os.path.join(VERIF, "tools", "findings_extra.json")
